@@ -43,7 +43,14 @@ uint64_t STUB(strftime)(uint8_t* s, uint64_t max, uint8_t* fmt, uint8_t* tm_) {
   for (int i = 0; i < 9; i++) if (tm[i] != gm_tm[i]) sf_tm_same = 0;
   ASSERT(max > SLEN, "strftime buffer large enough for the text");
   if (!(max > SLEN)) return 0;
-  for (int i = 0; i < SLEN; i++) { uint8_t c = (uint8_t)in_range(1, 255); sf_text[i] = c; s[i] = c; }
+  for (int i = 0; i < SLEN; i++) {
+#if CHECK == 0
+    uint8_t c = (uint8_t)in_range(1, 255);
+#else
+    uint8_t c = 'x'; /* the value check does not look at the text: keep the input vector free of constrained inputs (replayable from a sliced SMT model) */
+#endif
+    sf_text[i] = c; s[i] = c;
+  }
   s[SLEN] = 0;
   return SLEN;
 }
@@ -62,7 +69,11 @@ uint32_t X_snprintf(uint8_t* s_, uint64_t n, uint8_t* fmt_, ...) {
   sn_n = n;
   sn_ptr_ok = (s == sf_buf + SLEN);
   sn_text[0] = '.';
+#if CHECK == 0
   for (int i = 1; i < 7; i++) sn_text[i] = (uint8_t)in_range('0', '9');
+#else
+  for (int i = 1; i < 7; i++) sn_text[i] = '0';
+#endif
   sn_text[7] = 0;
   if (n > 0) {
     uint64_t k = 0;
